@@ -12,8 +12,9 @@
   induction over `Desc`), on top of `Lemmas/CompilerSim.lean`.
 -/
 import BufrModel.Lemmas.CompilerWalk
+import BufrModel.Lemmas.CompilerDump
 namespace Bufr
-open Bufr.C08 Bufr.C08W
+open Bufr.C08 Bufr.C08W Bufr.C08D
 
 /-- Stage C = the general statement.  For every template `t`, compile-time registers `c0` from which the
     checking compiler (`chk = 1`: the class `scopeClosed`) accepts `t`, and every pair of run-time states
@@ -42,5 +43,62 @@ theorem C08_exec_compile_eq_walk (P : Prims) (hP : Frame P) (t : List Desc) (pro
   have h4 : withRegs s {} = s := by rw [← hr]; rfl
   rw [h4] at h3
   exact sim_obs h3
+
+
+/-! ### data-section level (`process_template_data` with and without a compiled template) -/
+
+/-- FULL.  Decoding a data section with the compiled template equals decoding it with the template,
+    uncompressed (any number of subsets, each from a fresh state) and compressed: same per-subset
+    labels, values, links and remaining bits, or the same error. -/
+theorem C08_decodeDataC_eq (t : List Desc) (prog : List Stmt) (hs : scopeClosed t = true)
+    (hc : compile t = .ok prog) (compressed : Bool) (n : Nat) (bits : Bits) :
+    decodeDataC prog compressed n bits = decodeData t compressed n bits :=
+  decodeDataC_eq (fun P hP s hr => C08_exec_compile_eq_walk P hP t prog hs hc s hr) compressed n bits
+
+/-- FULL.  Encoding with the compiled template equals encoding with the template: same bits, same
+    reported labels / links, or the same error; uncompressed and compressed. -/
+theorem C08_encodeDataC_eq (t : List Desc) (prog : List Stmt) (hs : scopeClosed t = true)
+    (hc : compile t = .ok prog) (compressed : Bool) (valss : List (List Val)) :
+    encodeDataC prog compressed valss = encodeData t compressed valss :=
+  encodeDataC_eq (fun P hP s hr => C08_exec_compile_eq_walk P hP t prog hs hc s hr) compressed valss
+
+/-! ### save / load -/
+
+/-- FULL for well-formed programs.  `loads_compiled_template(to_dict(prog))` is `prog`, for every program
+    `prog` that is well formed over the table group `T` it is loaded with (`WFList`): descriptor
+    arguments are Table B entries of `T` under their own id (`ElementDescriptor`), operator ids
+    (`OperatorDescriptor`), or the pseudo descriptors `A`/`S` of a `process_codeflag` call carrying their
+    own width; marker descriptors do not occur (they exist at run time only); loops nest arbitrarily. -/
+theorem C08_load_dump (T : Tables) (prog : List Stmt) (h : WFList T prog) : load T (dump prog) = .ok prog :=
+  load_dump T prog h
+
+/-- every program the compiler produces from a template whose elements are entries of `T` is well formed
+    (whether or not the template is `scopeClosed`) -/
+theorem C08_compile_wf (T : Tables) (t : List Desc) (ht : TWFL T t) (prog : List Stmt)
+    (hc : compile t = .ok prog) : WFList T prog :=
+  compile_wf T t ht prog hc
+
+/-- FULL.  For a template built from descriptor ids over tables keyed by the ids of their entries
+    (`TablesOk`), saving the compiled template and loading it with the same tables gives it back. -/
+theorem C08_load_dump_compile (T : Tables) (hT : TablesOk T) (ids : List Nat) (t : List Desc)
+    (hb : build T ids = .ok t) (prog : List Stmt) (hc : compile t = .ok prog) :
+    load T (dump prog) = .ok prog :=
+  load_dump T prog (compile_wf T t (twfl_build T hT ids t hb) prog hc)
+
+/-- FULL.  Decoding with the saved-and-reloaded compiled template equals decoding with the template. -/
+theorem C08_decodeData_reload (T : Tables) (hT : TablesOk T) (ids : List Nat) (t : List Desc)
+    (hb : build T ids = .ok t) (prog : List Stmt) (hs : scopeClosed t = true) (hc : compile t = .ok prog)
+    (compressed : Bool) (n : Nat) (bits : Bits) :
+    (load T (dump prog) >>= fun p => decodeDataC p compressed n bits) = decodeData t compressed n bits := by
+  rw [C08_load_dump_compile T hT ids t hb prog hc]
+  exact C08_decodeDataC_eq t prog hs hc compressed n bits
+
+/-- FULL.  Encoding with the saved-and-reloaded compiled template equals encoding with the template. -/
+theorem C08_encodeData_reload (T : Tables) (hT : TablesOk T) (ids : List Nat) (t : List Desc)
+    (hb : build T ids = .ok t) (prog : List Stmt) (hs : scopeClosed t = true) (hc : compile t = .ok prog)
+    (compressed : Bool) (valss : List (List Val)) :
+    (load T (dump prog) >>= fun p => encodeDataC p compressed valss) = encodeData t compressed valss := by
+  rw [C08_load_dump_compile T hT ids t hb prog hc]
+  exact C08_encodeDataC_eq t prog hs hc compressed valss
 
 end Bufr
